@@ -42,8 +42,8 @@ Definition c04_check (c : c04_case) : Z :=
   let mism := negb unm && negb (res_eqb value_eqb ma (x_add c) && res_eqb Bool.eqb mm (x_match c)) in
   let sa := agree_add (spec_add_field "x" (x_expr c) (x_doc c)) (x_add c) in
   let sm := agree_match (spec_expr (x_expr c) (x_doc c)) (x_match c) in
-  let pfail := match sa with Some false => true | _ => false end
-               || match sm with Some false => true | _ => false end in
+  let pfail := negb unm && (match sa with Some false => true | _ => false end
+                            || match sm with Some false => true | _ => false end) in
   let undecided := match sa, sm with None, None => true | _, _ => false end in
   let r := c04_reasons (x_expr c) (x_doc c) in
   (if mism then 1 else 0) + (if pfail then 2 else 0) + (if Z.eqb r 0 then 0 else 4)
